@@ -9,7 +9,8 @@ THEOREMS = ["requestName_queue", "requestName_reply", "requestName_signals", "re
             "releaseName_signals", "disconnect_queue", "disconnect_signals", "queue_jump_same_primary", "f15_witness",
             "queues_well_formed", "queues_well_formed_with_activation_and_time", "looked_up_queue_ok", "reserved_names_not_requestable", "reserved_names_not_releasable",
             "refused_request_changes_nothing", "reply_after_signals", "getNameOwner_reports_primary",
-            "listQueuedOwners_reports_queue", "nameHasOwner_reports_registry"]
+            "listQueuedOwners_reports_queue", "nameHasOwner_reports_registry", "queue_members_are_connected", "owned_names_cover_queues",
+            "gone_connection_in_no_queue"]
 BUS = "org.freedesktop.DBus"
 WEIGHTS = {"request": 40, "release": 14, "query": 12, "close": 6, "connect": 6, "hello": 5, "addmatch": 3, "signal": 2,
            "call": 3, "reply": 1, "forged": 1, "driver_edge": 2, "garbage": 0, "badtype": 0, "nodest": 0, "removematch": 1}
